@@ -61,7 +61,9 @@ Inductive Vis : N * N -> id -> Prop :=
    type whose name has two types) ---- *)
 (* K_recalc: recalc_element_type (parent's STORED type) yields the v-type *)
 Definition K_recalc : Prop := forall ty i n, Vis ty i -> w_nodes w i = Some n -> recalc_element_type T w n v = Val ty.
-(* K_mixup: the version mask is read from the element's STORED type with the index list of the recalculated type *)
+(* K_mixup: the version mask USED TO BE read from the element's STORED type with the index list of the recalculated type (fixed in
+   element.rs; Tree/Compat.v sub_loop reads it from the recalculated type now).  No longer a side condition of exactness
+   (f_check_exact_fixed); kept because NoKnown / the older statements mention it - it still holds in every typed world *)
 Definition K_mixup : Prop := forall ty i n c cn ixs, Vis ty i -> w_nodes w i = Some n ->
   In (CElem c) (n_content n) -> w_nodes w c = Some cn -> in_file cn = true ->
   (exists tc, find_sub_element T ty (n_name cn) v = Val (Some (tc, ixs)) \/
